@@ -355,8 +355,22 @@ def c02_family(rng, n):
                 if pos in ('direct', 'success', 'failure') and cd:
                     continue
                 cases.append((sig, pos, sd, cd))
+    # two positions that need cooperating sites: the failure handler of a child whose context parser
+    # failed, and a child with its own context whose `out` key does not exist yet when the signal is raised
+    extra = []
+    for sig in ('stop', 'stoppipeline'):
+        for sd in subsets(TRANSPARENT, 1):
+            for cd in subsets(CARRIER_DECOS, 1):
+                extra.append((sig, 'parser_failure_child', sd, cd))
+    for sig in signals:
+        for sd in subsets(TRANSPARENT, 1):
+            for cd in subsets(CARRIER_DECOS, 1):
+                extra.append((sig, 'child_own_out', sd, cd))
     rng.shuffle(cases)
-    for sig, pos, sd, cd in cases[:n]:
+    rng.shuffle(extra)
+    # the quick slice keeps a share of the cooperating-site positions
+    k = min(len(extra), max(n // 6, 0))
+    for sig, pos, sd, cd in extra[:k] + cases[:max(n - k, 0)]:
         yield c02_case(sig, pos, sd, cd)
 
 
@@ -427,6 +441,29 @@ def c02_case(sig, pos, sd, cd):
             tags = ['A'] + per
         else:
             tags = ['A'] + per * iters + ['B', 'OS']
+    elif pos == 'parser_failure_child':
+        # the child's context parser fails; its failure handler issues the instruction. stop ends every
+        # pipeline; stoppipeline ends only the child: the parent carries on with its next step.
+        children['child'] = {'parser': 'vparser',
+                             'groups': [['steps', [probe('C')]], ['on_success', [probe('COS')]],
+                                        ['on_failure', [probe('CF'), S, probe('D')]]]}
+        cs = dict(carrier, name='pypyr.steps.pype')
+        cs['in'] = [['pype', D(name='child', pipeArg='FAIL')]]
+        groups = [['steps', [probe('A'), cs, probe('B')]], ['on_success', [probe('OS')]],
+                  ['on_failure', [probe('OF')]]]
+        tags = ['A', 'CF'] if sig == 'stop' else ['A'] + ['CF'] * iters + ['B', 'OS']
+    elif pos == 'child_own_out':
+        # own context + out: after Stop the child did not complete, nothing is copied and the Stop is still
+        # a Stop although the out key does not exist; the other instructions end normally -> out is copied
+        first = probe('C') if sig == 'stop' else probe('C', set=D(res='r'))
+        children['child'] = [['steps', [first, S, probe('D', set=D(res='late'))]], ['on_success', [probe('COS')]],
+                             ['on_failure', [probe('COF')]], JT]
+        cs = dict(carrier, name='pypyr.steps.pype')
+        cs['in'] = [['pype', D(name='child', useParentContext=False, out='res')]]
+        groups = [['steps', [probe('A'), cs, probe('B')]], ['on_success', [probe('OS')]],
+                  ['on_failure', [probe('OF')]]]
+        per = {'stop': ['C'], 'stoppipeline': ['C'], 'stopstepgroup': ['C', 'COS'], 'jump': ['C', 'J', 'COS']}[sig]
+        tags = ['A'] + per if sig == 'stop' else ['A'] + per * iters + ['B', 'OS']
     else:
         inner = [probe('C'), S, probe('D')]
         cfg = {'name': 'child'}
@@ -689,6 +726,27 @@ def c05_family(rng, n):
                 exp = {'events': events, 'outcome': outcome, 'sleeps': [0.5] * max(len(wseq) - 1, 0)}
                 out.append((prog, exp, {'family': 'c05-loops', 'iterable': form, 'len': len(items), 'max': m,
                                         'stop_at': stop_at, 'errorOnMax': eom}))
+    # a LITERAL foreach list whose items are expressions: the iterable is evaluated ONCE, before the first
+    # iteration - a body that changes what a later item refers to does not change that item; the next while
+    # iteration evaluates the list again (then it sees the change).
+    for items, vals0, vals1 in [
+            (['{x}', '{x}', '{x}'], ['orig', 'orig', 'orig'], ['changed'] * 3),
+            (['a', '{x}', 'k-{x}'], ['a', 'orig', 'k-orig'], ['a', 'changed', 'k-changed']),
+            ([pyname('x'), 'b', '{x}'], ['orig', 'b', 'orig'], ['changed', 'b', 'changed']),
+            (['{x}', ['{x}', 1]], ['orig', ['orig', 1]], ['changed', ['changed', 1]])]:
+        for m in (None, 2):
+            st = probe('L', set=D(x='changed'))
+            st['foreach'] = items
+            if m is not None:
+                st['while'] = {'max': m}
+            events = []
+            for w_ in ([None] if m is None else range(1, m + 1)):
+                for x in (vals0 if w_ in (None, 1) else vals1):
+                    events.append(('L', x, MISSING if w_ is None else w_, ANY))
+            events.append(('Z', ANY, ANY, ANY))
+            out.append((prog_of([['steps', [st, probe('Z')]]], ctx={'x': 'orig'}),
+                        {'events': events, 'outcome': 'ok'},
+                        {'family': 'c05-literal-items-evaluated-once', 'items': json.dumps(items), 'max': m}))
     # an unswallowed error ends all loops of the step
     for at in [(1, 'a'), (1, 'b'), (2, 'a'), (2, 'b')]:
         st = probe('E', failIf={'py': {'op': 'and', 'a': {'op': '==', 'a': {'n': 'whileCounter'}, 'b': {'c': at[0]}},
